@@ -159,6 +159,20 @@ def o_history(case):
             if bt:
                 frame = frame[:-1] + bytes([frame[-1] ^ 0x5A])
             junk = bytes.fromhex(op.get("pre") or "")
+            if op.get("ubx"):
+                # the growing file ends inside a UBX message (a writer that died, a rotated log); the reader polls, finds
+                # nothing, and the file grows again with new data: the truncated item is history like any other
+                ln, cut = op["ubx"]
+                u = b"\xb5\x62\x01\x02" + bytes([ln, 0]) + bytes(1 + (7 * k) % 0x20 for k in range(ln + 2))
+                pos = live_stream.tell()
+                live_stream.seek(0, 2)
+                live_stream.write(u[: 6 + cut % (ln + 2)])
+                live_stream.seek(pos)
+                try:
+                    live.read()
+                except Exception:  # pylint: disable=broad-except
+                    pass  # raise mode is not used here; a stream error for the truncated item is the library's choice
+                cls.add("live-after-truncated-ubx")
             pos = live_stream.tell()
             live_stream.seek(0, 2)
             live_stream.write(junk + frame)
@@ -243,6 +257,7 @@ def s_history(draw, tier):
             "pre": st.one_of(st.none(), st.none(), junk),
             "bt": st.sampled_from([0, 0, 1]),
             "via": st.sampled_from(["read", "next"]),
+            "ubx": st.one_of(st.none(), st.none(), st.none(), st.tuples(st.sampled_from([1, 8, 40, 200]), st.integers(0, 300)).map(list)),
             "lm": st.sampled_from([1, 1, 2]),
             "mut": st.sampled_from([None, None, None, "truncate", "flip", "splice", "ones-from"]),
             "a": st.integers(0, 5000),
@@ -466,7 +481,7 @@ def _short(c):
 
 
 SUBS = [
-    Sub("parse_histories", o_history, strategy=s_history, examples=(60, 1200), rule="re-parse after a different identity and a failing parse", need={"re-parse": 1, "failing-parse": 1, "live": 1, "drain": 1, "live-after-junk": 1, "live-badtrailer-validate0": 1}, sample=_short),
+    Sub("parse_histories", o_history, strategy=s_history, examples=(60, 1200), rule="re-parse after a different identity and a failing parse", need={"re-parse": 1, "failing-parse": 1, "live": 1, "drain": 1, "live-after-junk": 1, "live-badtrailer-validate0": 1, "live-after-truncated-ubx": 1}, sample=_short),
     Sub("deterministic_schedules", o_sched, strategy=s_sched, examples=(10, 200), rule=">= 10 context switches inside the decoder", need={"switches-inside-decoder>=10": 1}, sample=_short),
     Sub("cold_start_concurrent_first_use", o_cold, strategy=s_cold, examples=(1, 10), rule="every case: fresh interpreters with 6 threads starting together", sample=_short),
     Sub("free_running_threads", o_stress, strategy=s_stress, examples=(3, 20), rule="every case (8 threads)", sample=_short),
